@@ -33,11 +33,19 @@ struct acct {
 	bool admin, readonly;
 };
 static const struct acct ACCTS[] = {
-    {"john", "pw-john-1", false, false}, {"bob", "pw-bob-22", false, false}, {"john-ro", "pw-ro-333", false, true}, {"adm", "pw-adm-44", true, false},
-    {"jo", "pw-jo-5555", false, false}, {"john-x", "pw-jx-666", false, false}, {"adm-ro", "pw-aro-77", true, true},
+    {"john", "Winter-2025-john!", false, false}, {"bob", "Winter-2025-bob!!", false, false}, {"john-ro", "Winter-2025-ro!!!", false, true}, {"adm", "Winter-2025-adm!!", true, false},
+    {"jo", "Winter-2025-jo!!!", false, false}, {"john-x", "Winter-2025-jx!!!", false, false}, {"adm-ro", "Winter-2025-aro!!", true, true},
 };
 #define NACCTS ((int)(sizeof(ACCTS) / sizeof(ACCTS[0])))
-static const char NEWPW[] = "brand-new-password";
+/* new passwords differ from the old one only in the LAST character: a re-hash that looks at a prefix only (DES: 8 characters)
+ * would let the old password pass as well */
+static char NEWPW[40] = "Winter-2025-john?";
+static void set_newpw_for(const char *oldpw)
+{
+	snprintf(NEWPW, sizeof(NEWPW), "%s", oldpw);
+	size_t l = strlen(NEWPW);
+	NEWPW[l - 1] = NEWPW[l - 1] == '?' ? '#' : '?';
+}
 
 static char *make_file(int nusers, int salt_seed)
 {
@@ -135,6 +143,9 @@ static void run_matrix(void)
 		jx_settle();
 	}
 	int tidx = acct_index(TARGETS[ti]);
+	if (tidx >= 0) {
+		set_newpw_for(ACCTS[tidx].pw);
+	}
 	bool allowed = caller_name != NULL && tidx >= 0 && !ACCTS[tidx].readonly && (strcmp(caller_name, TARGETS[ti]) == 0 || ACCTS[acct_index(caller_name)].admin);
 	struct bytebuf before = {0};
 	bb_append(&before, sim_fs_content()->p, sim_fs_content()->len);
@@ -185,16 +196,19 @@ static void run_matrix(void)
 	if (second && ok) {
 		int A = jx_open(CL_RAW);
 		jx_sendf(A, "{\"id\":\"a\",\"method\":\"authenticate\",\"params\":{\"user\":\"adm\",\"password\":\"%s\"}}", tidx == 3 ? NEWPW : ACCTS[3].pw);
-		jx_sendf(A, "{\"id\":\"p2\",\"method\":\"passwd\",\"params\":{\"user\":\"%s\",\"password\":\"second-new-password\"}}", TARGETS[ti]);
+		char second_pw[40];
+		snprintf(second_pw, sizeof(second_pw), "%s", NEWPW);
+		second_pw[strlen(second_pw) - 1] = '%';
+		jx_sendf(A, "{\"id\":\"p2\",\"method\":\"passwd\",\"params\":{\"user\":\"%s\",\"password\":\"%s\"}}", TARGETS[ti], second_pw);
 		jx_settle();
 		if (!jx_is_success(jx_find_response_str(A, "p2", 0))) {
 			fail20("second-change-refused", "the admin could not change the same account again");
 		}
-		if (!can_login(TARGETS[ti], "second-new-password") || can_login(TARGETS[ti], NEWPW)) {
-			fail20("change-not-effective", "after a second change the newest password does not work or the previous one still does");
+		if (!can_login(TARGETS[ti], second_pw) || can_login(TARGETS[ti], NEWPW) || can_login(TARGETS[ti], ACCTS[tidx].pw)) {
+			fail20("change-not-effective", "after a second change the newest password does not work or one of the two previous ones still does");
 		}
 	}
-	if (sim_syslog_contains(NEWPW) || sim_syslog_contains("second-new-password")) {
+	if (sim_syslog_contains(NEWPW) || sim_syslog_contains("Winter-2025")) {
 		fail20("password-in-log", "a new password occurs in a log line");
 	}
 	jx_check_hygiene("hygiene:");
@@ -363,6 +377,6 @@ const struct driver drv_c20 = {
     .name = "c20",
     .property = "C20",
     .run = run,
-    .rule = "section 0: credential file with 7 accounts (plain, admin, read-only, read-only admin, names that are prefixes / extensions of each other) x 8 caller identities (unauthenticated, plain, admin, read-only, plain then failed authentication, prefix-named, read-only admin, re-authenticated) x 9 targets (each account, unknown, empty) x 2 transports x {single change, a second change by the admin afterwards}; reference: allowed iff caller authenticated, target exists and is not read-only, caller is the target or an admin; allowed => success, new password authenticates and the old does not, every other account unaffected, file rewritten and complete; refused => error, file byte-identical, nothing changed; section 1: one allowed change (by the user / by the admin) x fault outcome {none, ftruncate fails, write fails ENOSPC / EIO, first write accepts only j bytes for EVERY j < file size} x EVERY crash point (file image before the change and after each mutating call, recorded by the simulated file system in a twin execution): a fresh daemon booted on the image must load it and authenticate john with exactly one of old / new password and every other account unchanged; acknowledged => new set on disk and effective in the running daemon; error answer => old set on disk and in memory; params: users (file size), salt (seed of the deterministic random stub); non-trivial = all applicable runs",
+    .rule = "section 0: credential file with 7 accounts (plain, admin, read-only, read-only admin, names that are prefixes / extensions of each other) x 8 caller identities (unauthenticated, plain, admin, read-only, plain then failed authentication, prefix-named, read-only admin, re-authenticated) x 9 targets (each account, unknown, empty) x 2 transports x {single change, a second change by the admin afterwards}; reference: allowed iff caller authenticated, target exists and is not read-only, caller is the target or an admin; allowed => success, the new password (which differs from the old one only in its last character) authenticates and the old does not, every other account unaffected, file rewritten and complete; refused => error, file byte-identical, nothing changed; section 1: one allowed change (by the user / by the admin) x fault outcome {none, ftruncate fails, write fails ENOSPC / EIO, first write accepts only j bytes for EVERY j < file size} x EVERY crash point (file image before the change and after each mutating call, recorded by the simulated file system in a twin execution): a fresh daemon booted on the image must load it and authenticate john with exactly one of old / new password and every other account unchanged; acknowledged => new set on disk and effective in the running daemon; error answer => old set on disk and in memory; params: users (file size), salt (seed of the deterministic random stub); non-trivial = all applicable runs",
     .assumptions = "a crash is modelled as losing everything after a mutating call of the credential file (ftruncate / write); the simulated file system applies each call atomically|write() returning 0 for a non-empty buffer is not modelled",
 };
